@@ -194,7 +194,7 @@ PROPS = {
     },
     "C19": {
         "world": "dsim.worlds.noise.NoiseWorld",
-        "tiers": {"quick": {"runs": 800, "chunk": 4, "run_cap_s": 900, "wall_cap_s": 800},
+        "tiers": {"quick": {"runs": 640, "chunk": 4, "run_cap_s": 900, "wall_cap_s": 600},
                   "thorough": {"runs": 16000, "chunk": 8, "run_cap_s": 1500, "wall_cap_s": 2700}},
         "rule": "one evaluation = one simulated run of 6-24 steps over long-lived NoiseModel objects (errors added over time, incl. "
                 "refused additions) and long-lived noisy cirq backends holding them: (dm) translate_circuit(..., noise_model) + "
@@ -202,11 +202,14 @@ PROPS = {
                 "gate and in gate order, the Pauli channel on every touched qubit / the joint k-qubit depolarising channel on "
                 "targets+controls; (sim) sampled histograms from the noisy backend with every draw from the RNG seam: integrality, "
                 "support, exact binomial test against diag(rho); (expval) noisy expectation values against Tr(rho H) with a "
-                "Bernstein bound; zero-rate models; provoked refusals (unknown channel, malformed parameters, same type twice, "
+                "Bernstein bound; (simm) noisy circuits with mid-circuit MEASURE gates - unconditioned, recorded (save_mid_circuit_meas: "
+                "joint law of outcome string and final sample, marginals consistent) and post-selected (desired_meas_result: raw "
+                "shots follow the joint law, returned frequencies are their exact post-selected recount) against a branching "
+                "density-matrix reference; zero-rate models; provoked refusals (unknown channel, malformed parameters, same type twice, "
                 "probabilities out of range, noise without shots, noise on sympy, noise + CMEASURE) with the model state checked "
                 "afterwards. Distinct = (step kind, width, #noisy gates / shots, channel kinds) tuples; non-trivial = run with >=3 "
                 "steps of >=2 kinds or >=1 refusal.",
-        "probes": ["C19.noise_on_multi_qubit_gate", "C19.zero_rate_model"],
+        "probes": ["C19.noise_on_multi_qubit_gate", "C19.zero_rate_model", "C19.noisy_mid_circuit.plain", "C19.noisy_mid_circuit.save", "C19.noisy_mid_circuit.desired"],
         "components_real": ["NoiseModel, translate_c_to_cirq (channel insertion), CirqSimulator density-matrix route + sample_density_matrix, "
                             "Backend noise/shots validation, cirq DensityMatrixSimulator"],
         "components_stub": [],
